@@ -30,7 +30,7 @@ SCHED_FILES := ringbuffer.c ringbuffer_helper.c array.c
 SCHED_COV := -fsanitize-coverage=edge,trace-pc-guard,trace-loads,trace-stores
 
 LIBOBJ := $(addprefix $(B)/lib/,$(LIBSRC:.c=.o))
-HDRS := $(wildcard $(REPO)/include/*.h $(REPO)/include/qb/*.h $(REPO)/lib/*.h $(VERIF)/engine/*.h $(VERIF)/harness/*.h)
+HDRS := $(wildcard $(VERIF)/harness/*.inc $(REPO)/include/*.h $(REPO)/include/qb/*.h $(REPO)/lib/*.h $(VERIF)/engine/*.h $(VERIF)/harness/*.h)
 
 .PHONY: lib all
 lib: $(B)/libqb.a
@@ -64,6 +64,10 @@ LDX_c07 :=
 WRAP_RANDOM := -Wl,--wrap=random,--wrap=srandom,--wrap=rand,--wrap=srand
 EXTRA_c20 := wrap_random.o
 LDX_c20 := $(WRAP_RANDOM)
+EXTRA_c17 := wrap_random.o
+LDX_c17 := $(WRAP_RANDOM)
+EXTRA_c18 := wrap_random.o
+LDX_c18 := $(WRAP_RANDOM)
 
 # generic rule: harness/cNN_*.c(c) -> $(B)/cNN
 define HARNESS_RULE
